@@ -107,6 +107,33 @@ func HarnessC12a() {
 		return
 	}
 	injected := (kind == 0 && nload > at) || (kind == 1 && ncmp > at)
+	if ferr == nil && (op == 0 || op == 1) {
+		// the call reported success (the fault position may lie beyond the calls it made, or the
+		// failure was not propagated): then it must have had its normal effect, and a version
+		// persisted now records what is reachable
+		if op == 0 {
+			md.put(k, v)
+		} else {
+			md = md.clone()
+			md.del(k)
+		}
+		// (Whether the *contents* are right when a fault fired and the call still reported success is
+		// not judged: C12 speaks of calls that return an error. On the unchanged tree findNode drops a
+		// KeyCompare error raised inside its sort.Search closure and goes on with the index found so
+		// far; see DESIGN 12.4, "observed outside the properties".)
+		if !injected {
+			ks, vs, ierr := iterAll(t)
+			verifAssert("C01.no-fault-fired.iter.err", ierr == nil)
+			if ierr == nil {
+				verifAssert("C01.no-fault-fired.contents", seqMatches(ks, vs, md))
+			}
+		}
+		if pr, perr := t.MakeRoot(vctx); perr == nil {
+			rep := checkShape(st, pr)
+			verifAssert("C09.size-after-operation-under-fault", verifAnd(rep.complete, pr.Size == rep.entries))
+		}
+		return
+	}
 	if ferr != nil {
 		verifNote("op-failed")
 		// a valid delete of an absent / mismatching entry also errors; both cases must leave the tree alone
